@@ -1,10 +1,12 @@
 #!/venv/bin/python
-"""Development tool: apply a one-line source mutation (or a patch file) to /repo,
-run quick checks, and ALWAYS revert (git checkout) afterwards.
+"""Development tool: apply a one-line source mutation (or a patch file) to a *scratch worktree*
+of /repo (under /tmp, removed afterwards), and run quick checks against it through the
+VERIF_REPO override.  /repo and /verif/evidence are never touched.
 
-  tools/mutate.py C17 -- fairlearn/adversarial/_adversarial_mitigation.py 'OLD' 'NEW'
-  tools/mutate.py C17,C19 --patch /path/to/patch.diff
+  tools/mutate.py C17 [--runs N] -- fairlearn/adversarial/_adversarial_mitigation.py 'OLD' 'NEW'
+  tools/mutate.py C17,C19 [--runs N] --patch /path/to/patch.diff
 """
+import os
 import subprocess
 import sys
 
@@ -20,37 +22,32 @@ def main():
         i = rest.index("--runs")
         extra = ["--runs", rest[i + 1]]
         rest = rest[:i] + rest[i + 2:]
-    dirty = subprocess.run(["git", "-C", REPO, "status", "--porcelain", "--untracked-files=no"], capture_output=True, text=True).stdout.strip()
-    if dirty:
-        print("refusing: /repo has uncommitted changes:\n" + dirty)
-        return 3
+    wt = f"/tmp/wt_mut_{os.getpid()}"
+    subprocess.run(["git", "-C", REPO, "worktree", "add", "-q", "--detach", wt, "HEAD"], check=True)
     try:
         if rest[0] == "--patch":
-            subprocess.run(["git", "-C", REPO, "apply", rest[1]], check=True)
+            subprocess.run(["git", "-C", wt, "apply", rest[1]], check=True)
         else:
             assert rest[0] == "--"
             path, old, new = rest[1:4]
-            full = f"{REPO}/{path}"
+            full = f"{wt}/{path}"
             s = open(full).read()
             if s.count(old) != 1:
                 print(f"pattern occurs {s.count(old)} times, need exactly 1")
                 return 3
             open(full, "w").write(s.replace(old, new))
-        rcs = {}
+        env = dict(os.environ, VERIF_REPO=wt, VERIF_EVIDENCE_DIR="/tmp/mut_evidence", VERIF_REPLAY_DIR=f"/tmp/mut_replays/{os.getpid()}")
         for c in checks:
             p = subprocess.run(["/venv/bin/python", "/verif/run_check.py", c, "--tier", "quick"] + extra,
-                               capture_output=True, text=True, cwd="/verif")
-            tail = [l for l in p.stdout.splitlines() if l.startswith(("VIOLATION", "HARNESS", "violation", "property=", "KNOWN"))]
+                               capture_output=True, text=True, cwd="/verif", env=env)
+            tail = [l[:500] for l in p.stdout.splitlines() if l.startswith(("VIOLATION", "HARNESS", "violation", "property=", "KNOWN"))]
             print(f"--- {c}: rc={p.returncode}")
             print("\n".join(tail[-8:]))
             if p.returncode not in (0, 1):
                 print(p.stdout[-1500:], p.stderr[-1500:])
-            rcs[c] = p.returncode
         return 0
     finally:
-        subprocess.run(["git", "-C", REPO, "checkout", "--", "."], check=True)
-        # evidence/replays written during a mutant run are not evidence
-        subprocess.run(["git", "-C", "/verif", "checkout", "--", "evidence"], check=False, capture_output=True)
+        subprocess.run(["git", "-C", REPO, "worktree", "remove", "--force", wt], check=False)
 
 
 if __name__ == "__main__":
